@@ -24,7 +24,7 @@ pub static C17: C17Prop = C17Prop;
 // ---------------------------------------------------------------------------------------------
 // programs
 // ---------------------------------------------------------------------------------------------
-const FRAGS: [(&str, &str); 21] = [
+const FRAGS: [(&str, &str); 22] = [
     ("", "let acc = 0; for (let i = 0; i < 40; i++) { acc += i; } G.__acc = acc;"),
     ("", "const junk: any[] = []; for (let i = 0; i < 160; i++) { junk.push({i, s: \"x\" + i}); } G.__junk = junk.length;"),
     ("import { order } from \"tsrun:host\";", "G.__r0 = order({tag: \"r0\", n: 1, list: [1, 2, {z: \"é\"}]});"),
@@ -46,6 +46,8 @@ const FRAGS: [(&str, &str); 21] = [
     ("", "if (typeof G.nf1 === \"function\") { try { G.__n1 = G.nf1(G.h1, G.h2, G.nf0); } catch (e) { G.__e4 = String(e); } }"),
     ("", "throw new Error(\"nul\\u0000byte\");"),
     ("import { zz } from \"./a\\u0000b\";", "G.__zz = zz;"),
+    // several native calls in one run, the first with an object that has a script method (callbacks re-enter through tsrun_call_method)
+    ("", "if (typeof G.nf0 === \"function\" && typeof G.nf1 === \"function\") { try { G.__q0 = G.nf0({f: (x: any) => [x], k: 1}, [1, 2]); G.__q1 = G.nf1(7); G.__q2 = G.nf0(8); G.__q3 = G.nf1({f: () => 1}); } catch (e) { G.__e5 = String(e); } }"),
 ];
 const EXPORT_FRAG: &str = "export const out = {a: [1, 2, {b: 3}]}; export function fexp(x: any) { return [x, x]; } export default 42;";
 const FINALS: [&str; 21] = [
@@ -79,7 +81,7 @@ fn gen_program(t: &mut Tape) -> (String, bool) {
     let module = t.chance(1, 3);
     let mut used: Vec<usize> = vec![];
     for _ in 0..n {
-        let k = t.weighted(&[6, 5, 10, 5, 8, 5, 5, 6, 4, 4, 3, 4, 4, 5, 3, 4, 2, 1, 4, 1, 1]);
+        let k = t.weighted(&[6, 5, 10, 5, 8, 5, 5, 6, 4, 4, 3, 4, 4, 5, 3, 4, 2, 1, 4, 1, 1, 9]);
         // fragments declare top-level names: each at most once; the two order fragments exclude each other
         if used.contains(&k) || (k == 2 && used.contains(&3)) || (k == 3 && used.contains(&2)) {
             continue;
@@ -211,7 +213,7 @@ pub fn gen_case(t: &mut Tape) -> Value {
     for _ in 0..ncb {
         let n = t.below(5);
         let ops: Vec<Value> = (0..n).map(|_| gen_value_op(t, ncb)).collect();
-        let ret = [0, 3, 2, 1, 6, 5, 7, 4, 10, 8, 9][t.weighted(&[10, 10, 10, 6, 10, 8, 6, 6, 4, 2, 2])];
+        let ret = [0, 3, 2, 1, 6, 11, 5, 7, 4, 10, 8, 9][t.weighted(&[10, 10, 10, 6, 10, 12, 8, 6, 6, 4, 2, 2])];
         cbs.push(json!({"ops": ops, "ret": ret, "sel": t.below(8)}));
     }
     let target = 12 + t.below(189);
@@ -467,7 +469,7 @@ impl Property for C17Prop {
     }
     fn rule(&self) -> String {
         "A case is a sequence of <= 200 operations (plus <= 4 native-callback scripts of <= 4 operations each) decoded from the choice tape; one operation is one call of an exported tsrun_* function (all 64 are generated) or a small macro around one (answer the import requests / pending orders of the last step result, force a collection, compare host-stored values). \
-         Arguments are selectors resolved against the executor's handle table: a live handle of the documented kind, the most recent such handle, any live handle, a handle of a wrong kind, NULL; strings come from fixed tables incl. NULL and non-UTF-8 bytes. Programs are assembled from 21 fragments (orders via tsrun:host, native functions stored as globals, internal and source modules, console, RegExp, promises, throws, allocation bursts) and 21 completion values (plain/frozen/accessor objects, arrays, functions, bound functions, symbols, Map, Proxy, Promise, class instances, generator objects). \
+         Arguments are selectors resolved against the executor's handle table: a live handle of the documented kind, the most recent such handle, any live handle, a handle of a wrong kind, NULL; strings come from fixed tables incl. NULL and non-UTF-8 bytes. Programs are assembled from 22 fragments (orders via tsrun:host, native functions stored as globals, internal and source modules, console, RegExp, promises, throws, allocation bursts) and 21 completion values (plain/frozen/accessor objects, arrays, functions, bound functions, symbols, Map, Proxy, Promise, class instances, generator objects). \
          Non-trivial: >= 10 API calls including a tsrun_step/tsrun_run, a release (value, step result, string, string array or context) and an object crossing the boundary in either direction; distinct by rendered case."
             .into()
     }
